@@ -15,6 +15,8 @@ SUBS = {
     "numbers": (["1", "0", ",", ".", "a", " ", "-"], 5, 6),
     "blanks": ([" ", "\t", "\n", "\r", "a", "    "], 5, 7),
     "comments": (["[", "]", "a", "\n", '"', " "], 5, 7),
+    # code points Unicode counts as white space but DDP does not (they are symbols), next to real blanks and indentation
+    "unicode-spaces": (["\u00a0", "\u2028", "\v", "\f", "\u3000", "\u0085", "\t", "    ", "a", "\n"], 4, 5),
 }
 ALIAS = (["<", ">", "a", "1", " ", "!", "wenn", "ä", "\n", "*"], 4, 5)
 BADBYTES = [0x61, 0x80, 0xC3, 0xE2, 0xF0, 0xFF, 0xA4, 0xED, 0xA0, 0xF4, 0x90]
